@@ -45,7 +45,7 @@ def rand_frames(rng, n):
 def rand_item(rng, depth=0):
     r = rng.random()
     if r < 0.35:
-        return ('kf', rng.choice(KW), rng.choice(['spin', 'a1', 'fade-in', 'x_y']), rand_frames(rng, rng.randrange(1, 7)))
+        return ('kf', rng.choice(KW), rng.choice(['spin', 'a1', 'fade-in', 'x_y', 'rotate', 'scale', 'translate', 'pulse', 'slide-in', 'bounce', 'blink', 'shake', 'zoomIn', 'move', 'grow']), rand_frames(rng, rng.randrange(1, 7)))
     if r < 0.5:
         return ('db', rng.choice(['@font-face', '@viewport', '@-ms-viewport']), rand_decls(rng, rng.randrange(1, 4)))
     if r < 0.65:
